@@ -92,7 +92,7 @@ package p9
 //@ reftable connState.fids [C05,C15]
 //@ ownfield fidRef.file [C05,C15]
 
-//@ inline (*fidRef).isDeleted, (*fidRef).hasParent, (*fidRef).maybeParent, (*fidRef).IncRef, CanOpen, (OpenFlags).Mode
+//@ inline (*fidRef).hasParent, (*fidRef).maybeParent, (*fidRef).IncRef, CanOpen, (OpenFlags).Mode
 
 // ---- C09 ---------------------------------------------------------------------
 //@ func checkSafeName
@@ -607,7 +607,18 @@ package p9
 //@   ensures[C04,C06] @enosys isErr(result, linux.ENOSYS) && nocalls()
 
 // ---- path tree helpers used by the handlers ------------------------------------
+// The fence flag and the registered name are only meaningful while the tree is
+// held still: both are read under the rename lock (read or write hold), as the
+// comments on isDeleted / safelyRead say. (A read before the lock is taken can
+// be stale by the time it is used: the sequential model cannot see that, the
+// lock precondition can.)
+//@ func (*fidRef).isDeleted
+//@   requires[C03,C07,C08] @fence-read-under-the-rename-lock held(f.server.renameMu) != 0
+//@   ensures result == fenced(f)
+//@   nopanic
+
 //@ func (*pathNode).nameFor
+//@   requires[C03,C08] @name-read-under-the-rename-lock ref != nil && held(ref.server.renameMu) != 0
 //@   requires[C15,C16] held(p.childMu) == 0
 //@   ensures[C08,C09] @current-name has(p.childRefNames, ref) && result == p.childRefNames[ref]
 //@   maypanic
